@@ -43,9 +43,55 @@ type Backend struct {
 	dead bool // a call timed out: the handle may be wedged, stop using it (only read after the calls are over)
 	dmu  sync.Mutex
 	wrap func(store.Store) store.Store
+	// strings clover returned earlier, kept as they were handed out, next to copies of their bytes: Go
+	// strings are immutable, so they must still read the same after any number of later calls
+	held     [][]string
+	heldCopy [][]string
 	// every call runs in a goroutine of its own (deadline); enter, when set, is told the calling
 	// goroutine from inside the new one and returns what to do when the call is over
 	enter func(parent int64) func()
+}
+
+func objWithout(obj V, key string) V {
+	out := V{"obj", []interface{}{}}
+	if len(obj) < 2 || obj[0] != "obj" {
+		return obj
+	}
+	for _, kv := range toList(obj[1]) {
+		p := toList(kv)
+		if string(toBytes(p[0])) != key {
+			out = ObjSet(out, string(toBytes(p[0])), toV(p[1]))
+		}
+	}
+	return out
+}
+
+func (b *Backend) hold(v []string) {
+	cp := make([]string, len(v))
+	for i, s := range v {
+		cp[i] = string(append([]byte(nil), s...))
+	}
+	if len(b.held) >= 4 {
+		b.held, b.heldCopy = b.held[1:], b.heldCopy[1:]
+	}
+	b.held, b.heldCopy = append(b.held, v), append(b.heldCopy, cp)
+}
+
+// heldIntact reports whether every string kept by hold still reads as it did.
+func (b *Backend) heldIntact() (ok bool) {
+	defer func() {
+		if recover() != nil {
+			ok = false
+		}
+	}()
+	for i := range b.held {
+		for j := range b.held[i] {
+			if b.held[i][j] != b.heldCopy[i][j] {
+				return false
+			}
+		}
+	}
+	return true
 }
 
 func openStore(name, dir string) (store.Store, error) {
@@ -791,6 +837,7 @@ func (x *Exec) Run(b *Backend, e E, genIds [][]byte) E {
 				out = append(out, escName(s))
 			}
 			res["val"] = out
+			b.hold(v)
 			return err
 		case "Insert", "InsertOne", "Save":
 			var docs []*document.Document
@@ -803,6 +850,25 @@ func (x *Exec) Run(b *Backend, e E, genIds [][]byte) E {
 				}
 				docs = append(docs, doc)
 			}
+			before := make([]V, len(docs))
+			for i, d := range docs {
+				before[i] = x.alphaDoc(d)
+			}
+			defer func() {
+				// the caller's documents are the caller's: apart from the _id an insert assigns, they
+				// read afterwards as they did before
+				for i, d := range docs {
+					after := x.alphaDoc(d)
+					if _, had := ObjGet(before[i], "_id"); !had {
+						after = objWithout(after, "_id")
+					} else if v, _ := ObjGet(before[i], "_id"); fmt.Sprint(v) == fmt.Sprint(AStr("")) {
+						after, before[i] = objWithout(after, "_id"), objWithout(before[i], "_id")
+					}
+					if fmt.Sprint(after) != fmt.Sprint(before[i]) {
+						res["harm"] = "a document passed to " + op + " reads differently after the call"
+					}
+				}
+			}()
 			var err error
 			switch op {
 			case "Insert":
@@ -1042,6 +1108,10 @@ func (x *Exec) Run(b *Backend, e E, genIds [][]byte) E {
 		}
 		return fmt.Errorf("unknown op %s", op)
 	})
+	if res["harm"] == nil && !b.heldIntact() {
+		res["harm"] = "strings returned by an earlier ListCollections read differently now"
+		b.held, b.heldCopy = nil, nil
+	}
 	return res
 }
 
